@@ -80,6 +80,21 @@ def call_object(n):
     return None
 
 
+import os as _os
+RENDER_EXPAND = _os.environ.get("MPSA_RENDER_EXPAND", "1") in ("1", "all")
+RENDER_EXPAND_ALL = _os.environ.get("MPSA_RENDER_EXPAND", "1") == "all"
+_RENDER_DEFAULT = RENDER_EXPAND
+# rules whose tables were frozen against the unexpanded text (locals by name); everything else sees stable locals expanded
+RAW_RENDER_RULES = {"C01.X1", "C06.G1", "C06.R1", "C01.H2", "C01.K1", "C01.K2", "C01.L1", "C01.P2", "C04.T1", "C05.T2", "C06.B1", "C07.G1", "C07.H1", "C07.P2",
+                    "C10.U1", "C11.V1", "C13.D1", "C19.S1", "C20.P1", "C20.P3"}
+
+
+def set_rule(rid):
+    """called when a rule object is created: selects the rendering mode of the code that follows"""
+    global RENDER_EXPAND
+    RENDER_EXPAND = _RENDER_DEFAULT and rid not in RAW_RENDER_RULES
+
+
 def render(n, depth=0):
     """Compact pseudo-source of an expression for diagnostics."""
     if n is None:
@@ -92,6 +107,10 @@ def render(n, depth=0):
     if k in TRANSPARENT and len(ks) == 1:
         return r(ks[0])
     if k == "DeclRefExpr":
+        if RENDER_EXPAND and n.get("_f") is not None and depth < 10:
+            ini = _stable_local_inits(n["_f"], RENDER_EXPAND_ALL).get(n.get("declId"))
+            if ini is not None:
+                return render(ini, depth + 1)
         return n.get("name", "?")
     if k == "MemberExpr":
         b = r(ks[0]) if ks else "this"
@@ -227,6 +246,8 @@ class Func:
             if x is None:
                 continue
             self.nodes[x["i"]] = x
+            if x["k"] == "DeclRefExpr":
+                x["_f"] = self
             if par is not None:
                 self.parent[x["i"]] = par
             for c in x.get("c", []):
@@ -767,6 +788,11 @@ class Facts:
                     continue
                 seen.add(key)
                 self.funcs.append(Func(f, u.get("_unit")))
+        self._by_id = {}
+        for f in self.funcs:
+            f._owner = self
+            if not f.is_dependent():
+                self._by_id.setdefault(f.id, f)
         self.enums = {}
         for u in unit_facts:
             for e in u.get("enums", []):
@@ -793,3 +819,128 @@ class Facts:
         if not e:
             return None
         return {x["name"]: int(x["value"]) for x in e["enumerators"]}
+
+
+# ---------------------------------------------------------------------------------------------------
+# shape-insensitive views: locals that merely name an expression are looked through, conditions are
+# flattened.  Rules that compare guards or call objects use these so that hoisting a subexpression into
+# a local, naming a condition, De Morgan rewrites and nested/merged ifs do not change the verdict.
+# ---------------------------------------------------------------------------------------------------
+def _stable_local_inits(f, all_locals=False):
+    """declId -> initialiser node for locals that are initialised at their declaration, never written again and
+    either references, const-qualified or of type bool (a named condition); with all_locals every such local
+    whatever its type (value copies included: use only to recognise shapes, not to reason about aliasing)"""
+    attr = "_stable_inits_all" if all_locals else "_stable_inits"
+    if hasattr(f, attr):
+        return getattr(f, attr)
+    written = set()
+    for n in f.walk():
+        k = n["k"]
+        if k == "UnaryOperator" and n.get("op") in ("++", "--", "&"):
+            t = strip(kids(n)[0])
+            if t is not None and t["k"] == "DeclRefExpr":
+                written.add(t.get("declId"))
+        elif k in ("BinaryOperator", "CompoundAssignOperator") and (n.get("op") == "=" or k == "CompoundAssignOperator"):
+            t = strip(kids(n)[0])
+            if t is not None and t["k"] == "DeclRefExpr":
+                written.add(t.get("declId"))
+    out = {}
+    for n in f.walk():
+        if n["k"] != "VarDecl" or not kids(n) or n.get("declId") in written:
+            continue
+        ct = (n.get("ct") or n.get("t") or "").strip()
+        ini = kids(n)[0]
+        if ini is None:
+            continue
+        if all_locals or ct.endswith("&") or ct.startswith("const ") or ct in ("bool", "_Bool"):
+            if strip(ini) is not None and strip(ini)["k"] not in ("InitListExpr", "CXXConstructExpr", "LambdaExpr"):
+                out[n["declId"]] = ini
+    setattr(f, attr, out)
+    return out
+
+
+def _pure_predicate(g):
+    """the returned expression of a helper whose body is a single `return e;` (e without calls to non-helpers,
+    assignments or increments), else None"""
+    if hasattr(g, "_pure_ret"):
+        return g._pure_ret
+    g._pure_ret = None
+    body = [x for x in (g.roots or []) if x is not None and x["k"] == "CompoundStmt"]
+    if len(body) == 1:
+        st = [x for x in kids(body[0]) if x is not None and x["k"] != "NullStmt"]
+        if len(st) == 1 and st[0]["k"] == "ReturnStmt" and kids(st[0]):
+            e = kids(st[0])[0]
+            bad = [x for x in walk(e) if (x["k"] in ("BinaryOperator", "CompoundAssignOperator") and (x.get("op") == "=" or x["k"] == "CompoundAssignOperator"))
+                   or (x["k"] == "UnaryOperator" and x.get("op") in ("++", "--"))]
+            uses_this = any(x["k"] == "CXXThisExpr" for x in walk(e))
+            if not bad and not uses_this and len(list(walk(e))) <= 40:
+                g._pure_ret = e
+    return g._pure_ret
+
+
+def _subst_params(e, binding):
+    if e is None:
+        return e
+    if e["k"] == "DeclRefExpr" and e.get("declId") in binding:
+        return binding[e["declId"]]
+    if not e.get("c"):
+        return e
+    m = dict(e)
+    m["c"] = [_subst_params(c, binding) if c is not None else None for c in e["c"]]
+    return m
+
+
+def expand_locals(f, n, depth=0, all_locals=False):
+    """copy of expression n with references to stable locals replaced by their initialisers and calls of
+    one-line pure helpers (`static bool IsDigit(char c) { return c >= '0' && c <= '9'; }`) replaced by their body"""
+    if n is None or depth > 6:
+        return n
+    inits = _stable_local_inits(f, all_locals)
+    if n["k"] == "DeclRefExpr" and n.get("declId") in inits:
+        return expand_locals(f, strip(inits[n["declId"]]), depth + 1, all_locals)
+    if n["k"] in ("CallExpr", "CXXMemberCallExpr") and n.get("calleeId") and getattr(f, "_owner", None) is not None:
+        g = f._owner._by_id.get(n["calleeId"])
+        if g is not None and g is not f:
+            e = _pure_predicate(g)
+            a = call_args(n)
+            if e is not None and len(a) == len(g.params) and len(a) >= 1:
+                binding = {p["declId"]: strip(expand_locals(f, x, depth + 1, all_locals)) for p, x in zip(g.params, a)}
+                return {"k": "ParenExpr", "i": n.get("i"), "l": n.get("l"), "c": [_subst_params(strip(e), binding)]}
+    if not n.get("c"):
+        return n
+    m = dict(n)
+    m["c"] = [expand_locals(f, c, depth, all_locals) if c is not None else None for c in n["c"]]
+    return m
+
+
+def xrender(f, n, all_locals=False):
+    """render() after looking through stable locals"""
+    return render(expand_locals(f, n, 0, all_locals))
+
+
+def norm_facts(f, n, loop_conditions=True, all_locals=False):
+    """branch facts at n as a sorted list of (text, polarity): stable locals expanded, `!` folded into the polarity,
+    true conjunctions and false disjunctions split into their atoms (white space removed from the text)"""
+    out = []
+
+    def add(c, pol):
+        c = strip(c)
+        while c is not None and c["k"] == "UnaryOperator" and c.get("op") == "!":
+            pol = not pol
+            c = strip(kids(c)[0])
+        if c is None:
+            return
+        if c["k"] == "BinaryOperator" and ((c.get("op") == "&&" and pol) or (c.get("op") == "||" and not pol)):
+            add(kids(c)[0], pol)
+            add(kids(c)[1], pol)
+            return
+        out.append((render(c).replace(" ", ""), pol))
+    for cid, pol in f.cfg.facts_at(n):
+        if not loop_conditions:
+            par = f.parent.get(cid)
+            while par is not None and par["k"] in ("ImplicitCastExpr", "ParenExpr", "ExprWithCleanups"):
+                par = f.parent.get(par["i"])
+            if par is not None and par["k"] in ("ForStmt", "WhileStmt", "DoStmt", "CXXForRangeStmt"):
+                continue
+        add(expand_locals(f, f.nodes[cid], 0, all_locals), pol)
+    return sorted(set(out))
